@@ -81,6 +81,61 @@ fn analyse(label: &str, kind: &str, vals: &[String], ordered: bool, failures: &m
             }
         }
     }
+    // bits INSIDE one value must be pairwise independent: any two bit positions agree in about half of the values (a
+    // generator that derives one byte from another - a nibble repeated, a bit copied - keeps every marginal statistic)
+    {
+        let nbits = nbytes * 8;
+        let words = (decoded.len() + 63) / 64;
+        // bit-packed columns: column[b][w] has bit k set iff value 64*w+k has bit b set
+        let mut col = vec![vec![0u64; words]; nbits];
+        for (k, v) in decoded.iter().enumerate() {
+            for b in 0..nbits {
+                if v[b / 8] >> (7 - b % 8) & 1 == 1 {
+                    col[b][k / 64] |= 1u64 << (k % 64);
+                }
+            }
+        }
+        let tail_mask = if decoded.len() % 64 == 0 { u64::MAX } else { (1u64 << (decoded.len() % 64)) - 1 };
+        'pairs: for i in 0..nbits {
+            for j in i + 1..nbits {
+                *tests += 1;
+                let mut agree = 0u64;
+                for w in 0..words {
+                    let mut x = !(col[i][w] ^ col[j][w]);
+                    if w + 1 == words {
+                        x &= tail_mask;
+                    }
+                    agree += x.count_ones() as u64;
+                }
+                let z = (agree as f64 - n / 2.0) / (n / 4.0).sqrt();
+                // 8.5 sigma: up to 32640 pairs per sample set
+                if z.abs() > 8.5 {
+                    failures.push(json!({"signature": "C12:bits-within-a-value-correlated", "mode": label, "kind": kind,
+                        "detail": format!("bits {i} and {j} of one value agree in {agree} of {n} values ({z:.1} sigma)")}));
+                    break 'pairs;
+                }
+            }
+        }
+    }
+    // the bytes of one value repeat as often as independent draws do: P(all distinct) = prod (1 - i/256)
+    {
+        *tests += 1;
+        let p_distinct: f64 = (0..nbytes).map(|i| 1.0 - i as f64 / 256.0).product();
+        let with_repeat = decoded
+            .iter()
+            .filter(|v| {
+                let mut seen = [false; 256];
+                v.iter().any(|b| std::mem::replace(&mut seen[*b as usize], true))
+            })
+            .count() as f64;
+        let mean = n * (1.0 - p_distinct);
+        let sd = (n * p_distinct * (1.0 - p_distinct)).sqrt();
+        let z = (with_repeat - mean) / sd;
+        if z.abs() > SIGMA {
+            failures.push(json!({"signature": "C12:repeated-bytes-frequency", "mode": label, "kind": kind,
+                "detail": format!("{with_repeat} of {n} values contain a repeated byte (expected about {mean:.0}; {z:.1} sigma)")}));
+        }
+    }
     // byte positions inside one value must not be tied to each other
     'outer: for i in 0..nbytes {
         for j in i + 1..nbytes {
